@@ -1001,6 +1001,14 @@ impl Waiting {
             true => attempt.written_in.clone(),
             false => None,
         };
+        // Settings made by an element which has to wait are the document's all the same,
+        // and in force for what is written after it.
+        let configured = match (succeeded || attempt.retried, &attempt.written_in) {
+            (false, Some(written_in)) => {
+                Some((written_in.config().clone(), context.config.clone()))
+            }
+            _ => None,
+        };
         if succeeded {
             if attempt.retried {
                 self.waiting_count -= 1;
@@ -1040,7 +1048,9 @@ impl Waiting {
                 // elements after it, which have been evaluated already - except settings
                 // it changed (the border, say), which are the document's
                 let changed = match (succeeded, &started_in) {
-                    (true, Some(started_in)) => context.config_changed_since(started_in),
+                    (true, Some(started_in)) => {
+                        context.config_changed_since(started_in, &current)
+                    }
                     _ => None,
                 };
                 context.set_surroundings(*current);
@@ -1054,6 +1064,12 @@ impl Waiting {
             }
             // (tried for the first time after something which waits, and done: it carries
             // on from here, with the previous element it may have left)
+        }
+        if let Some((was, now)) = configured {
+            if let Some(config) = TransformerContext::config_carried(&was, &now, &context.config)
+            {
+                context.update_config(config);
+            }
         }
     }
 }
